@@ -25,7 +25,9 @@ LEVEL_TEXT = ("Theorems in Coq (Properties/C15.v): in every state reachable from
               "entries of one index were read as entries of another, EQUAL missed an existing entry (c15_layout_*_refuted, c15_index_mirror_slash_in_name_refuted; all "
               "confirmed on the real code). Repaired by O-45 (leader-side validation refuses them, fixes/O-45-index-declarations-validated.diff); the theorems' "
               "alphabet is now exactly what the validation accepts, so they cover every input that can reach the log (c15_logged_histories_admissible). "
-              "A sequence put landing on a live record (orphaned index entries) was confirmed and repaired with C16.")
+              "A sequence put landing on a live record (orphaned index entries) was confirmed and repaired with C16. Background activity: a trimming round of the "
+              "notifications trimmer preserves the invariant and touches no index entry (c15_trim_preserves_index_mirror); the leg runs real rounds between writes "
+              "and reads and checks the mirror right after each.")
 LEVEL_NOTE = ("Partial: proof about a hand-written model, tied to the code by differential testing on every run. Trusted: Coq kernel, extraction "
               "(ExtrOcamlBasic), the Go harness and its canonicalisation. Modelled, not verified: Pebble as an ordered map with snapshot iterators under "
               "the oxia comparer (C11), protobuf, url.PathEscape and regexp (transcribed; compared on generated inputs). The reads are driven through "
@@ -59,11 +61,12 @@ RULE = ("one case = 12-36 write requests against a fresh real DB on 1-4 indexes 
         "whole family incl. unused names: puts declaring 0-4 (name, skey) pairs "
         "(repeated secondary keys, duplicates, '/'-rich and escape-sensitive primary keys), overwrites, conditional puts, same-key batches, deletes, "
         "delete-ranges, bulk ranges of 60/100/101/130 indexed records, sessions with ephemeral indexed records and their closing request, sequence puts "
-        "with indexes; 30% of the cases keep the index entries the last keys of the DB (notifications off); after every request 2-6 index queries "
+        "with indexes; 35% of the cases run real rounds of the notifications trimmer (kv.VerifTrimNotifications, mocked clock, cut-offs inside the history) between "
+        "writes and index reads, some on disk with close+reopen around a round; 30% of the cases keep the index entries the last keys of the DB (notifications off); after every request 2-6 index queries "
         "(Get x5 / List / RangeScan) with keys at and beyond both edges of the index, on empty and unused indexes too; every response compared with the "
         "model and with the Go reference, the mirror checked on the full dump after every write; distinct by generator sub-seed")
 LEGS = [
-    {"name": "db15", "harness": "db", "model": "db", "n_quick": 700, "n_thorough": 40000, "args": ["-mode", "c15"],
+    {"name": "db15", "harness": "db", "model": "db", "n_quick": 450, "n_thorough": 40000, "args": ["-mode", "c15"],
      "corpus": "corpus/db15", "timeout": 900, "timeout_thorough": 3000},
     {"name": "leader15", "harness": "db", "model": "db", "n_quick": 60, "n_thorough": 3000, "args": ["-mode", "c15leader"],
      "timeout": 900, "timeout_thorough": 3000},
